@@ -6,6 +6,8 @@ use std::sync::atomic::{AtomicU64, Ordering};
 
 pub static CASE_INDEX: AtomicU64 = AtomicU64::new(0);
 pub static PROGRESS: AtomicU64 = AtomicU64::new(0);
+/// milliseconds (since process start, +1) at which the library call now in progress began; 0 = not inside a call
+pub static CALL_START: AtomicU64 = AtomicU64::new(0);
 
 thread_local! {
     static LAST_PANIC: RefCell<String> = RefCell::new(String::new());
@@ -27,27 +29,29 @@ pub fn install_panic_hook() {
 }
 
 pub fn start_watchdog(limit_s: u64) {
-    std::thread::spawn(move || {
-        let mut last = PROGRESS.load(Ordering::Relaxed);
-        let mut idle = 0u64;
-        loop {
-            std::thread::sleep(std::time::Duration::from_secs(1));
-            let now = PROGRESS.load(Ordering::Relaxed);
-            if now == last {
-                idle += 1;
-                if idle >= limit_s {
-                    // the main thread is stuck inside one library call
-                    let idx = CASE_INDEX.load(Ordering::Relaxed);
-                    let so = std::io::stdout();
-                    let _ = writeln!(so.lock(), "\n#HANG\t{}", idx);
-                    std::process::exit(3);
-                }
-            } else {
-                idle = 0;
-                last = now;
+    let t0 = std::time::Instant::now();
+    T0.with(|t| *t.borrow_mut() = Some(t0));
+    std::thread::spawn(move || loop {
+        std::thread::sleep(std::time::Duration::from_millis(500));
+        let st = CALL_START.load(Ordering::Relaxed);
+        if st != 0 {
+            let now = t0.elapsed().as_millis() as u64 + 1;
+            if now > st && now - st > limit_s * 1000 {
+                // the main thread has been inside ONE library call for too long
+                let idx = CASE_INDEX.load(Ordering::Relaxed);
+                let so = std::io::stdout();
+                let _ = writeln!(so.lock(), "\n#HANG\t{}", idx.saturating_sub(1));
+                std::process::exit(3);
             }
         }
     });
+}
+
+thread_local! {
+    static T0: RefCell<Option<std::time::Instant>> = RefCell::new(None);
+}
+fn now_ms() -> u64 {
+    T0.with(|t| t.borrow().map(|t0| t0.elapsed().as_millis() as u64 + 1).unwrap_or(1))
 }
 
 /// SplitMix64: every random choice in a run derives from this one stream.
@@ -128,7 +132,9 @@ impl Out {
             let _ = writeln!(self.w, "#BEGIN\t{}", line);
             let _ = self.w.flush();
         }
+        CALL_START.store(now_ms(), Ordering::Relaxed);
         let r = catch_unwind(AssertUnwindSafe(f));
+        CALL_START.store(0, Ordering::Relaxed);
         PROGRESS.fetch_add(1, Ordering::Relaxed);
         let res = match r {
             Ok(s) => s,
